@@ -19,7 +19,7 @@ CONFIG = '''taint-tracking-problems:
 '''
 
 GO_FORMS = ["named", "lit_cap", "lit_nocap", "method_ptr", "method_val", "method_value", "method_expr",
-            "funcvar", "funcfield", "funcparam", "iface", "generic"]
+            "funcvar", "funcfield", "funcparam", "iface", "generic", "generic_launch", "generic_launch"]
 DEFER_FORMS = ["none", "none", "rec_lit", "rec_named", "norec", "rec_nested"]
 PARAMS = "a *S, b *S, c chan string, cs chan *S, done chan bool"
 ARGN = 5
@@ -33,11 +33,16 @@ class Worker:
         self.recovers = dform in ("rec_lit", "rec_named")
         self.fault_lines = []
         self.first_line = self.last_line = 0
+        self.twin_entry = ""
+        self.twin_fault_lines = []
 
 
 class Gen:
-    def __init__(self, rng, nworkers=None, forms=None, dforms=None, stmts=None, faults=True):
+    def __init__(self, rng, nworkers=None, forms=None, dforms=None, stmts=None, faults=True, use_globals=None):
         self.rng = rng
+        # swarm: a third of the programs share nothing through package-level variables (the analyser's escape
+        # bookkeeping reports an error for most global jumps, which would leave the silent case under-tested)
+        self.use_globals = rng.chance(67) if use_globals is None else use_globals
         self.lines = []
         self.nworkers = nworkers or (2 + rng.below(3))
         self.stmts = stmts or (3 + rng.below(6))
@@ -49,6 +54,7 @@ class Gen:
         self.sends = {"c1": 0, "c2": 0, "cs1": 0}   # planned sends per main-level channel
         self.recvs = {"c1": 0, "c2": 0, "cs1": 0}
         self.source_lines, self.sink_lines = [], []
+        self.spawned = 0
         self.features = set()
         self.indent = 0
         self.nvar = 0
@@ -87,9 +93,14 @@ class Gen:
         strs, objs = env["strs"], env["objs"]
         kinds = ["src", "src", "concat", "fset", "fset", "fget", "fget", "link", "follow", "deep", "mset", "mget",
                  "lset", "lget", "gset", "gget", "gsobj", "ggobj", "gsfield", "sink", "sink", "sinkobj", "helper",
-                 "closure", "iface", "new", "new", "send", "recv", "sendobj", "recvobj", "append"]
+                 "closure", "iface", "iface", "new", "new", "send", "recv", "sendobj", "recvobj", "append", "deepset",
+                 "addr", "pset", "pget", "mcall"]
+        if env.get("is_main") and depth == 0:
+            kinds += ["spawn", "spawn"]
         if depth < 2:
             kinds += ["if", "for"]
+        if not self.use_globals:
+            kinds = [x for x in kinds if x not in ("gset", "gget", "gsobj", "ggobj", "gsfield")]
         k = r.pick(kinds)
         a = r.pick(objs)
         x = r.pick(strs) if strs else None
@@ -127,6 +138,34 @@ class Gen:
             self.stmt("%s := %s.n.f" % (v, a), accs=[(a, 0), (a + ".n", 0)])
             self.stmt("_ = %s" % v)
             strs.append(v)
+        elif k == "deepset":
+            self.stmt("%s.n.f = %s" % (a, x), accs=[(a, 0), (a + ".n", 1)])
+            self.features.add("field-store")
+        elif k == "addr":
+            v = self.fresh("p")
+            what = r.pick(["%s.f" % a, "%s.g" % a, "%s.n.f" % a])
+            self.stmt("%s := &%s" % (v, what), accs=[(a, 0)])
+            self.stmt("_ = %s" % v)
+            env["ptrs"].append(v)
+            self.features.add("interior-pointer")
+        elif k == "pset" and env["ptrs"]:
+            p = r.pick(env["ptrs"])
+            self.stmt("*%s = %s" % (p, x), accs=[(p, 1)])
+        elif k == "pget" and env["ptrs"]:
+            p = r.pick(env["ptrs"])
+            v = self.fresh("x")
+            self.stmt("%s := *%s" % (v, p), accs=[(p, 0)])
+            self.stmt("_ = %s" % v)
+            strs.append(v)
+        elif k == "mcall":
+            self.stmt("%s.Put(%s, %s)" % (a, r.pick(objs), x))
+            self.features.add("method-ptr-arg")
+        elif k == "spawn":
+            h = r.pick(["hspawnf", "hspawnn", "hspawno"])
+            ln = self.L()
+            self.stmt("%s(%s, done)" % (h, a))
+            self.spawned += 1
+            self.features.add("go-inside-callee")
         elif k == "mset":
             self.stmt('%s.m["k"] = %s' % (a, x), accs=[(a, 0), (a + ".m", 1)])
             self.features.add("map")
@@ -176,7 +215,7 @@ class Gen:
             self.stmt("sink1(%s)" % what, "simb.Sink(%d, %s)" % (ln, what))
             self.sink_lines.append(ln)
         elif k == "helper":
-            h = r.pick(["hset", "hget", "hlink", "hnext", "hpub", "hswap"])
+            h = r.pick(["hset", "hget", "hlink", "hnext", "hpub", "hswap"] if self.use_globals else ["hset", "hget", "hlink", "hnext", "hswap"])
             if h == "hset":
                 self.stmt("hset(%s, %s)" % (a, x))
             elif h == "hget":
@@ -199,7 +238,8 @@ class Gen:
             self.features.add("helper-call")
         elif k == "closure":
             f = self.fresh("fn")
-            body = r.pick(["%s.f = %s" % (a, x), "G1 = %s" % x, "%s.n = %s" % (a, r.pick(objs))])
+            body = r.pick(["%s.f = %s" % (a, x), "G1 = %s" % x, "%s.n = %s" % (a, r.pick(objs))] if self.use_globals
+                          else ["%s.f = %s" % (a, x), "%s.g = %s" % (a, x), "%s.n = %s" % (a, r.pick(objs))])
             ln = self.L()
             acc = "simb.Acc(%d, %s, 1); " % (ln, a) if body.startswith(a + ".") else "simb.Acc(%d, &G1, 1); " % ln
             self.stmt("%s := func() { %s }" % (f, body), "%s := func() { %s%s }" % (f, acc, body))
@@ -208,8 +248,15 @@ class Gen:
         elif k == "iface":
             i = self.fresh("i")
             self.stmt("var %s I = %s" % (i, a))
-            if r.chance(50):
+            c = r.below(4)
+            if c == 0:
                 self.stmt("%s.Set(%s)" % (i, x))
+            elif c == 1:
+                self.stmt("%s.Put(%s, %s)" % (i, r.pick(objs), x))
+                self.features.add("iface-ptr-arg")
+            elif c == 2:
+                self.stmt("%s.Link(%s)" % (i, r.pick(objs)))
+                self.features.add("iface-ptr-arg")
             else:
                 v = self.fresh("x")
                 self.stmt("%s := %s.Get()" % (v, i))
@@ -257,7 +304,7 @@ class Gen:
                 objs.append(v)
                 self.recvs[cn] += 1
         elif k in ("if", "for"):
-            saved = (len(strs), len(objs))
+            saved = (len(strs), len(objs), len(env["ptrs"]))
             if k == "if":
                 self.stmt("if cond(%d) {" % r.below(4))
             else:
@@ -266,13 +313,13 @@ class Gen:
             self.indent += 1
             self.body(env, 1 + r.below(3), depth + 1)
             self.indent -= 1
-            del strs[saved[0]:], objs[saved[1]:]
+            del strs[saved[0]:], objs[saved[1]:], env["ptrs"][saved[2]:]
             if k == "if" and r.chance(40):
                 self.emit("} else {")
                 self.indent += 1
                 self.body(env, 1 + r.below(2), depth + 1)
                 self.indent -= 1
-                del strs[saved[0]:], objs[saved[1]:]
+                del strs[saved[0]:], objs[saved[1]:], env["ptrs"][saved[2]:]
             self.emit("}")
 
     def fault_point(self, w):
@@ -307,7 +354,7 @@ class Gen:
 
     def env(self, objs, schans, ochans, chanmap, strs=None):
         return {"strs": list(strs or []), "objs": list(objs), "schans": list(schans), "ochans": list(ochans),
-                "chanmap": dict(chanmap)}
+                "chanmap": dict(chanmap), "ptrs": []}
 
     # ------------------------------------------------------------ whole program
     def generate(self):
@@ -326,6 +373,8 @@ class Gen:
         e("type I interface {")
         e("\tSet(x string)")
         e("\tGet() string")
+        e("\tPut(o *S, x string)")
+        e("\tLink(o *S)")
         e("}")
         e("")
         e("type V struct{ p *S }")
@@ -335,6 +384,10 @@ class Gen:
         e("func (s *S) Set(x string) { s.f = x }", "func (s *S) Set(x string) { simb.Acc(%d, s, 1); s.f = x }" % ln)
         ln = self.L()
         e("func (s *S) Get() string  { return s.g }", "func (s *S) Get() string  { simb.Acc(%d, s, 0); return s.g }" % ln)
+        ln = self.L()
+        e("func (s *S) Put(o *S, x string) { o.f = x }", "func (s *S) Put(o *S, x string) { simb.Acc(%d, o, 1); o.f = x }" % ln)
+        ln = self.L()
+        e("func (s *S) Link(o *S)          { s.n = o }", "func (s *S) Link(o *S)          { simb.Acc(%d, s, 1); s.n = o }" % ln)
         e('func newS() *S { s := &S{m: map[string]string{}, l: []string{"", ""}}; s.n = s; return s }')
         e('func source1() string { return "src" }')
         e("func sink1(x any)      {}")
@@ -354,6 +407,38 @@ class Gen:
         ln = self.L()
         e("func hswap(a *S, b *S)    { a.f, b.f = b.f, a.f }",
           "func hswap(a *S, b *S)    { simb.Acc(%d, a, 1); simb.Acc(%d, b, 1); a.f, b.f = b.f, a.f }" % (ln, ln))
+        # helpers that start a goroutine inside a callee, handing it an interior pointer or an inner object
+        ln = self.L()
+        e("func hspawnf(a *S, done chan bool) { go wleakp(&a.f, done) }",
+          "func hspawnf(a *S, done chan bool) { simb.Acc(%d, a, 0); simrt.Go2(%d, wleakp, &a.f, done) }" % (ln, ln))
+        ln = self.L()
+        e("func hspawnn(a *S, done chan bool) { go wleakp(&a.n.f, done) }",
+          "func hspawnn(a *S, done chan bool) { simb.Acc(%d, a, 0); simrt.Go2(%d, wleakp, &a.n.f, done) }" % (ln, ln))
+        ln = self.L()
+        e("func hspawno(a *S, done chan bool) { go wleako(a.n, done) }",
+          "func hspawno(a *S, done chan bool) { simb.Acc(%d, a, 0); simrt.Go2(%d, wleako, a.n, done) }" % (ln, ln))
+        e("func wleakp(p *string, done chan bool) {")
+        ln = self.L()
+        e("\tdefer func() { done <- true }()", "\tdefer func() { simrt.Send(%d, done, true) }()" % ln)
+        ln = self.L()
+        e("\tx := *p", "\tsimrt.Yield(%d); simb.Acc(%d, p, 0); x := *p" % (ln, ln))
+        ln = self.L()
+        e("\tsink1(x)", "\tsimrt.Yield(%d); simb.Sink(%d, x)" % (ln, ln))
+        self.sink_lines.append(ln)
+        ln = self.L()
+        e("\t*p = source1()", "\tsimrt.Yield(%d); simb.Acc(%d, p, 1); *p = simb.Src(%d)" % (ln, ln, ln))
+        self.source_lines.append(ln)
+        e("}")
+        e("func wleako(o *S, done chan bool) {")
+        ln = self.L()
+        e("\tdefer func() { done <- true }()", "\tdefer func() { simrt.Send(%d, done, true) }()" % ln)
+        ln = self.L()
+        e("\tsink1(o.f)", "\tsimrt.Yield(%d); simb.Acc(%d, o, 0); simb.Sink(%d, o.f)" % (ln, ln, ln))
+        self.sink_lines.append(ln)
+        ln = self.L()
+        e("\to.g = source1()", "\tsimrt.Yield(%d); simb.Acc(%d, o, 1); o.g = simb.Src(%d)" % (ln, ln, ln))
+        self.source_lines.append(ln)
+        e("}")
         e("")
         e("var G0 string")
         e("var G1 string")
@@ -362,14 +447,14 @@ class Gen:
         e("")
         # interfaces for interface launches
         for w in self.workers:
-            if w.form == "iface":
+            if w.form in ("iface", "generic_launch"):
                 e("type R%d interface{ m%d(b *S, c chan string, cs chan *S, done chan bool) }" % (w.k, w.k))
         e("")
         # ---- main
         e("func main() {", "func pmain() {")
         self.indent = 1
         nw = self.nworkers
-        e("done := make(chan bool, %d)" % (nw + 2))
+        e("done := make(chan bool, %d)" % (nw + 16))
         e("a1 := newS()")
         e("a2 := newS()")
         e("a3 := newS()")
@@ -378,6 +463,7 @@ class Gen:
         e("cs1 := make(chan *S, 8)")
         e("_, _, _, _, _, _ = a1, a2, a3, c1, c2, cs1")
         menv = self.env(["a1", "a2", "a3"], ["c1", "c2"], ["cs1"], {})
+        menv["is_main"] = True
         self.body(menv, 1 + r.below(self.stmts))
         for w in self.workers:
             args_a, args_b = r.pick(["a1", "a2", "a3"]), r.pick(["a1", "a2", "a3"])
@@ -444,6 +530,14 @@ class Gen:
             elif f == "funcparam":
                 e("launch%d(w%d, %s)" % (k, k, args))
                 w.entry = "w%d" % k
+            elif f == "generic_launch":
+                # one go statement in a generic function, two instantiations launching different methods;
+                # the second instantiation (value receiver type V) is the twin worker
+                e("spawn%d(%s, %s, %s, cs1, done)" % (k, args_a, args_b, ch))
+                e("spawn%d(V{%s}, %s, %s, cs1, done)" % (k, args_b, args_a, ch))
+                w.entry = "(*S).m%d" % k
+                w.twin_entry = "(V).m%d" % k
+                self.spawned += 1  # the twin signals done as well
             elif f == "iface":
                 e("var r%d R%d = %s" % (k, k, args_a))
                 w.go_line = self.L()
@@ -451,12 +545,13 @@ class Gen:
                   "simrt.Go4(%d, r%d.m%d, %s, %s, cs1, done)" % (w.go_line, k, k, args_b, ch))
                 w.entry = "(*S).m%d" % k
             self.body(menv, r.below(3))
-        for _ in range(nw):
+        for _ in range(nw + self.spawned):
             ln = self.L()
             self.emit("<-done", "simrt.Recv(%d, done)" % ln)
+        menv["is_main"] = False
         self.body(menv, 1 + r.below(4))
         # a final sink of everything main can reach
-        for what in ("a1", "a2", "a3", "GS", "G0", "G1"):
+        for what in (("a1", "a2", "a3", "GS", "G0", "G1") if self.use_globals else ("a1", "a2", "a3")):
             ln = self.L()
             self.stmt("sink1(%s)" % what, "simb.Sink(%d, %s)" % (ln, what))
             self.sink_lines.append(ln)
@@ -474,13 +569,33 @@ class Gen:
                 e("\tgo fn(a, b, c, cs, done)", "\tsimrt.Go5(%d, fn, a, b, c, cs, done)" % w.go_line)
                 e("}")
                 e("")
+            if w.form == "generic_launch":
+                e("func spawn%d[T R%d](r T, b *S, c chan string, cs chan *S, done chan bool) {" % (k, k))
+                w.go_line = self.L()
+                e("\tgo r.m%d(b, c, cs, done)" % k, "\tsimrt.Go4(%d, r.m%d, b, c, cs, done)" % (w.go_line, k))
+                e("}")
+                e("")
+                # the twin: same method name on the value type V, no recovering defer, own fault point
+                e("func (v V) m%d(b *S, c chan string, cs chan *S, done chan bool) {" % k)
+                ln = self.L()
+                e("\tdefer func() { done <- true }()", "\tdefer func() { simrt.Send(%d, done, true) }()" % ln)
+                e("\ta := v.p")
+                e("\t_ = a")
+                if self.faults:
+                    ln = self.L()
+                    e('\tif fault(%d) { panic("boom") }' % ln, '\tif simb.Fault(%d) { panic("boom") }' % ln)
+                    w.twin_fault_lines = [ln]
+                ln = self.L()
+                e("\ta.g = b.f", "\tsimrt.Yield(%d); simb.Acc(%d, a, 1); simb.Acc(%d, b, 0); a.g = b.f" % (ln, ln, ln))
+                e("}")
+                e("")
             if w.form in ("named", "funcvar", "funcfield", "funcparam"):
                 e("func w%d(%s) {" % (k, PARAMS))
                 objs = ["a", "b"]
             elif w.form == "generic":
                 e("func g%d[T any](%s) {" % (k, PARAMS))
                 objs = ["a", "b"]
-            elif w.form in ("method_ptr", "method_value", "method_expr", "iface"):
+            elif w.form in ("method_ptr", "method_value", "method_expr", "iface", "generic_launch"):
                 e("func (a *S) m%d(b *S, c chan string, cs chan *S, done chan bool) {" % k)
                 objs = ["a", "b"]
             elif w.form == "method_val":
@@ -508,8 +623,10 @@ class Gen:
     def meta(self):
         return {"workers": [{"k": w.k, "form": w.form, "defer": w.dform, "go_line": w.go_line, "entry": w.entry,
                              "recovers": w.recovers, "fault_lines": w.fault_lines, "first_line": w.first_line,
-                             "last_line": w.last_line} for w in self.workers],
-                "source_lines": self.source_lines, "sink_lines": self.sink_lines, "features": sorted(self.features),
+                             "last_line": w.last_line, "twin_entry": w.twin_entry,
+                             "twin_fault_lines": w.twin_fault_lines} for w in self.workers],
+                "source_lines": self.source_lines, "sink_lines": self.sink_lines,
+                "features": sorted(self.features | ({"globals"} if self.use_globals else {"no-globals"})),
                 "nlines": len(self.lines)}
 
 
@@ -522,3 +639,204 @@ def generate(seed, idx, **kw):
 def program_for_analysis(seed, idx, **kw):
     p = generate(seed, idx, **kw)
     return {"kind": "src", "name": p["name"], "text": p["clean"], "config": CONFIG}
+
+
+# =============================================================== focused programs
+#
+# Small programs built around ONE sharing pattern, so that a single wrong classification is not masked by other
+# escapes or flows of the same source. main shares an object with one goroutine; one side stores source data through
+# the pattern, the other side sinks what it can reach.
+
+PATTERNS = [
+    # name, writer statements (use a = shared object, x = tainted string), features
+    ("field", ["a.f = x"], [("a", 1)]),
+    ("deep-field", ["a.n.f = x"], [("a", 0), ("a.n", 1)]),
+    ("helper", ["hset(a, x)"], []),
+    ("iface-ptr-arg", ["var i I = b", "i.Put(a, x)"], []),
+    ("iface-ptr-arg-deep", ["var i I = b", "i.Put(a.n, x)"], [("a", 0)]),
+    ("iface-link", ["o := newS()", "o.f = x", "var i I = a", "i.Link(o)"], []),
+    ("method-ptr-arg", ["b.Put(a, x)"], []),
+    ("closure", ["fn := func() { a.f = x }", "fn()"], []),
+    ("closure-param", ["apply(func(o *S) { o.f = x }, a)"], []),
+    ("interior-pointer", ["p := &a.f", "*p = x"], [("a", 0)]),
+    ("interior-pointer-deep", ["p := &a.n.g", "*p = x"], [("a", 0)]),
+    ("map", ['a.m["k"] = x'], [("a", 0), ("a.m", 1)]),
+    ("slice", ["a.l[1] = x"], [("a", 0), ("&a.l[0]", 1)]),
+    ("append", ["a.l = append(a.l, x)"], [("a", 1)]),
+    ("link", ["o := newS()", "o.f = x", "a.n = o"], [("a", 1)]),
+    ("swap", ["o := newS()", "o.f = x", "hswap(a, o)"], []),
+    ("recv-then-store", ["a.n.n.f = x"], [("a", 0), ("a.n", 0), ("a.n.n", 1)]),
+]
+
+
+def focused(seed, idx):
+    """One pattern, one shared object, one goroutine. Returns the same dict shape as generate()."""
+    rng = Rng(seed * 6151 + idx * 389 + 7)
+    g = Gen(rng, nworkers=1, forms=["named"], dforms=["none"], stmts=1, faults=False, use_globals=False)
+    e = g.emit
+    name, writer, waccs = PATTERNS[idx % len(PATTERNS)] if rng.chance(80) else rng.pick(PATTERNS)
+    # how the object reaches the goroutine
+    share = rng.pick(["go-arg", "go-arg", "capture", "chan", "field-of-arg", "spawn-in-callee", "spawn-in-callee",
+                      "spawn-interior", "spawn-interior"])
+    writer_is_main = rng.chance(60)
+    fresh_inner = rng.chance(70)  # a.n is a distinct object (not the self loop newS builds)
+    if share == "spawn-interior":
+        # a callee hands an interior pointer (&a.n.f or &a.f) to a goroutine; the other side uses the field directly
+        fresh_inner = True
+        inner = rng.pick(["a.n.f", "a.n.f", "a.f", "a.n.n.f"])
+        name, writer, waccs = "interior-of-" + inner, ["%s = x" % inner], [("a", 0)]
+    g.features |= {"focused", "pattern:" + name, "share:" + share, "writer:" + ("main" if writer_is_main else "goroutine")}
+    e("package main", 'package main; import ("simrt"; "simrt/simb")')
+    e("")
+    e("type S struct {")
+    e("\tf string")
+    e("\tg string")
+    e("\tn *S")
+    e("\tm map[string]string")
+    e("\tl []string")
+    e("}")
+    e("")
+    e("type I interface {")
+    e("\tPut(o *S, x string)")
+    e("\tLink(o *S)")
+    e("}")
+    e("")
+    ln = g.L()
+    e("func (s *S) Put(o *S, x string) { o.f = x }", "func (s *S) Put(o *S, x string) { simb.Acc(%d, o, 1); o.f = x }" % ln)
+    ln = g.L()
+    e("func (s *S) Link(o *S)          { s.n = o }", "func (s *S) Link(o *S)          { simb.Acc(%d, s, 1); s.n = o }" % ln)
+    e('func newS() *S { s := &S{m: map[string]string{}, l: []string{"", ""}}; s.n = s; return s }')
+    e('func source1() string { return "src" }')
+    e("func sink1(x any)      {}")
+    ln = g.L()
+    e("func hset(a *S, x string) { a.g = x }", "func hset(a *S, x string) { simb.Acc(%d, a, 1); a.g = x }" % ln)
+    ln = g.L()
+    e("func hswap(a *S, b *S)    { a.f, b.f = b.f, a.f }",
+      "func hswap(a *S, b *S)    { simb.Acc(%d, a, 1); simb.Acc(%d, b, 1); a.f, b.f = b.f, a.f }" % (ln, ln))
+    e("func apply(fn func(o *S), a *S) { fn(a) }")
+    e("type Box struct{ p *S }")
+    e("")
+
+    def body(role_writer, indent, via_pointer=False):
+        g.indent = indent
+        if via_pointer:
+            if role_writer:
+                ln = g.L()
+                g.stmt("*p = source1()", "*p = simb.Src(%d)" % ln, accs=[("p", 1)])
+                g.source_lines.append(ln)
+            else:
+                ln = g.L()
+                g.stmt("sink1(*p)", "simb.Sink(%d, *p)" % ln, accs=[("p", 0)])
+                g.sink_lines.append(ln)
+            return
+        if role_writer:
+            ln = g.L()
+            g.stmt("x := source1()", "x := simb.Src(%d)" % ln)
+            g.source_lines.append(ln)
+            g.stmt("_ = x")
+            for k, st in enumerate(writer):
+                g.stmt(st, accs=waccs if k == len(writer) - 1 else ())
+        else:
+            choices = [["a"], ["a.f", "a.g", "a.n"], ["a.n.f", "a"], ['a.m["k"]', "a.l", "a"]]
+            if share == "spawn-interior":
+                choices = [[inner], [inner, "a"]]
+            for what in rng.pick(choices):
+                ln = g.L()
+                g.stmt("sink1(%s)" % what, "simb.Sink(%d, %s)" % (ln, what))
+                g.sink_lines.append(ln)
+
+    # the goroutine
+    w = g.workers[0]
+    if share == "spawn-interior":
+        e("func w0(p *string, b *S, done chan bool) {")
+    else:
+        e("func w0(a *S, b *S, done chan bool) {")
+    ln = g.L()
+    e("\tdefer func() { done <- true }()", "\tdefer func() { simrt.Send(%d, done, true) }()" % ln)
+    body(not writer_is_main, 1, via_pointer=(share == "spawn-interior"))
+    g.indent = 0
+    e("}")
+    e("")
+    if share == "spawn-interior":
+        e("func publish(a *S, b *S, done chan bool) {")
+        w.go_line = g.L()
+        e("\tgo w0(&%s, b, done)" % inner, "\tsimb.Acc(%d, a, 0); simrt.Go3(%d, w0, &%s, b, done)" % (w.go_line, w.go_line, inner))
+        e("}")
+        e("")
+    if share == "spawn-in-callee":
+        e("func publish(a *S, b *S, done chan bool) {")
+        w.go_line = g.L()
+        tgt = rng.pick(["a", "a", "a.n"]) if fresh_inner else "a"
+        e("\tgo w0(%s, b, done)" % tgt, "\tsimrt.Go3(%d, w0, %s, b, done)" % (w.go_line, tgt))
+        e("}")
+        e("")
+    if share == "chan":
+        e("func wc(cs chan *S, b *S, done chan bool) {")
+        ln = g.L()
+        e("\ta := <-cs", "\ta := simrt.Recv(%d, cs)" % ln)
+        e("\tw0(a, b, done)")
+        e("}")
+        e("")
+    if share == "field-of-arg":
+        e("func wb(bx *Box, b *S, done chan bool) { w0(bx.p, b, done) }")
+        e("")
+    e("func main() {", "func pmain() {")
+    g.indent = 1
+    e("done := make(chan bool, 4)")
+    if rng.chance(50):
+        # objects built with composite literals in main itself (allocation sites are main's own instructions)
+        lit = 'm: map[string]string{}, l: []string{"", ""}'
+        e("a := &S{%s, n: &S{%s, n: &S{%s}}}" % (lit, lit, lit))
+        e("b := &S{%s}" % lit)
+        e("b.n = b")
+        g.features.add("alloc:literal")
+    else:
+        e("a := newS()")
+        e("b := newS()")
+        if fresh_inner:
+            ln = g.L()
+            e("a.n = newS()", "simb.Acc(%d, a, 1); a.n = newS()" % ln)
+            if name == "recv-then-store" or share == "spawn-interior":
+                e("a.n.n = newS()")
+        g.features.add("alloc:constructor")
+    e("_, _ = a, b")
+    if share == "go-arg":
+        w.go_line = g.L()
+        e("go w0(a, b, done)", "simrt.Go3(%d, w0, a, b, done)" % w.go_line)
+    elif share == "capture":
+        w.go_line = g.L()
+        e("go func() { w0(a, b, done) }()", "simrt.Go0(%d, func() { w0(a, b, done) })" % w.go_line)
+    elif share == "chan":
+        e("cs := make(chan *S, 1)")
+        w.go_line = g.L()
+        e("go wc(cs, b, done)", "simrt.Go3(%d, wc, cs, b, done)" % w.go_line)
+        ln = g.L()
+        e("cs <- a", "simrt.Send(%d, cs, a)" % ln)
+    elif share == "field-of-arg":
+        e("bx := &Box{p: a}")
+        w.go_line = g.L()
+        e("go wb(bx, b, done)", "simrt.Go3(%d, wb, bx, b, done)" % w.go_line)
+    else:
+        e("publish(a, b, done)")
+    body(writer_is_main, 1)
+    g.indent = 1
+    ln = g.L()
+    e("<-done", "simrt.Recv(%d, done)" % ln)
+    if writer_is_main is False:
+        # after the join main reads what the goroutine wrote
+        for what in ("a", "b"):
+            ln = g.L()
+            g.stmt("sink1(%s)" % what, "simb.Sink(%d, %s)" % (ln, what))
+            g.sink_lines.append(ln)
+    g.indent = 0
+    e("}")
+    g.extra = ["", "func main() { simb.Main(pmain) }", "var _ = simrt.Yield", "var _ = simb.Acc", ""]
+    w.entry = "w0"
+    return {"name": "cfocus-%d-%d" % (seed, idx), "clean": g.clean(), "exec": g.executed(), "meta": g.meta()}
+
+
+def generate_mixed(seed, idx, **kw):
+    """Swarm over program styles: every second program is a focused one."""
+    if idx % 2 == 1:
+        return focused(seed, idx // 2)
+    return generate(seed, idx, **kw)
